@@ -122,6 +122,35 @@ theorem honest_plaintext_verifies (c : CryptoOps) (key : Bytes) (items : List LI
     simp
   · rw [hmap, hent]
 
+/-- **Honest plaintext log FILES verify.** The same at file level: the bytes written (each line
+followed by `\n`), read back by `processLogFile` (after its repair: no line-length limit) and parsed line
+by line, verify – for any formatter outputs that contain no raw line feed (logrus escapes them). -/
+theorem honest_plaintext_file_verifies (c : CryptoOps) (key : Bytes) (items : List LItem)
+    (hres : ∀ it ∈ items, it.resetAfter = true → isEndData it.formatted = true)
+    (hlf : ∀ it ∈ items, ∀ x ∈ it.formatted, x ≠ 10) :
+    verify c key ((scanLines ((produceLines c key (Calc.new c key) items).flatMap fun l => l ++ [10])).map
+      (parseLine .last false)) = .ok := by
+  have hclean : ∀ (its : List LItem) (st : Calc), (∀ it ∈ its, ∀ x ∈ it.formatted, x ≠ 10) →
+      ∀ l ∈ produceLines c key st its, (∀ x ∈ l, x ≠ 10) ∧ l.getLast? ≠ some 13 := by
+    intro its
+    induction its with
+    | nil => intro st _ l hl; cases hl
+    | cons it r ih =>
+      intro st hf l hl
+      simp only [produceLines, appendIntegrity, List.mem_cons] at hl
+      rcases hl with rfl | hl
+      · have := rendered_clean it.formatted (st.step c it.formatted).2.1 (st.step c it.formatted).2.2
+          (hf it List.mem_cons_self)
+        simpa [tagPart, List.append_assoc] using this
+      · exact ih _ (fun x hx => hf x (List.mem_cons_of_mem _ hx)) l hl
+  have hread : scanLines ((produceLines c key (Calc.new c key) items).flatMap fun l => l ++ [10]) =
+      produceLines c key (Calc.new c key) items := by
+    unfold scanLines
+    rw [fact_reader]
+    exact scanLines_join _ (hclean items _ hlf)
+  rw [hread]
+  exact honest_plaintext_verifies c key items hres
+
 /-- **Honest CEF logs verify, whatever the messages and fields contain** (for a hash with non-empty
 output – true of SHA-256). -/
 theorem honest_cef_verifies (c : CryptoOps) (key : Bytes) (items : List LItem)
